@@ -446,6 +446,8 @@ fn fn_shapes(path: &str) -> Value {
             "params": params,
             "fs_calls": s.fs_calls, "reads": s.reads, "helpers": s.helpers, "replies": s.replies, "lets": s.lets,
             "method_calls": s.method_calls, "first_stmt": s.first_stmt,
+            // (pthost engine, C06) the first three statements, in order
+            "lead_stmts": block.stmts.iter().take(3).map(|st| toks(st).replace(' ', "")).collect::<Vec<String>>(),
             "panic_sites": s.panic_sites,
         }));
     }
@@ -560,6 +562,7 @@ fn main() {
         "src/passthrough/mod.rs",
         "src/passthrough/sync_io.rs",
         "src/passthrough/inode_store.rs",
+        "src/passthrough/util.rs",
         "src/transport/mod.rs",
         "src/transport/fusedev/mod.rs",
         "src/transport/virtiofs/mod.rs",
